@@ -253,7 +253,7 @@ impl Prop for C08 {
     fn budget(tier: Tier) -> Budget {
         match tier {
             Tier::Quick => Budget { cases: 150, shards: 16 },
-            Tier::Thorough => Budget { cases: 1500, shards: 16 },
+            Tier::Thorough => Budget { cases: 4500, shards: 16 },
         }
     }
 
